@@ -413,6 +413,10 @@ pub struct Run {
     console_start: usize,
     /// host-held values with what they showed when the host received them
     held: Vec<(RuntimeValue, String)>,
+    /// resolve functions the program handed over in order payloads (`{ k, resolve }`): the host
+    /// settles those promises later by calling the function
+    resolvers: Vec<(JsValue, f64)>,
+    resolver_guard: Option<tsrun::Guard<tsrun::JsObject>>,
 }
 
 pub const MAX_ROUNDS: u64 = 400;
@@ -441,6 +445,8 @@ impl Run {
             keepalive: Vec::new(),
             console_start: 0,
             held: Vec::new(),
+            resolvers: Vec::new(),
+            resolver_guard: None,
         }
     }
 
@@ -520,6 +526,20 @@ impl Run {
                     let _ = write!(t, "[c{}]", c.0);
                 }
                 self.out.traffic.push(t);
+                for o in &pending {
+                    if let Ok(f) = api::get_property(o.payload.value(), "resolve")
+                        && f.is_callable()
+                    {
+                        let k = api::get_property(o.payload.value(), "k").ok().and_then(|v| v.as_number()).unwrap_or(0.0);
+                        if self.resolver_guard.is_none() {
+                            self.resolver_guard = Some(api::create_guard(&h.interp));
+                        }
+                        if let Some(g) = &self.resolver_guard {
+                            api::guard_value(g, &f);
+                        }
+                        self.resolvers.push((f, k * 10.0 + 2.0));
+                    }
+                }
                 // the host keeps every order payload until the run is over (a "host-held value")
                 for o in pending {
                     let shown = show_value(o.payload.value());
@@ -607,6 +627,19 @@ impl Run {
             h.interp.fulfill_orders(responses);
             // ... and the host steps once before it gets round to this run's own orders
             self.out.idle_steps += 1;
+            return;
+        }
+        if !self.resolvers.is_empty() && ((self.unanswered.is_empty() && self.deferred.is_empty()) || self.tape.chance(1, 3)) {
+            // settle a promise of the program by calling the resolve function it handed over
+            let i = self.tape.next(self.resolvers.len());
+            let (f, v) = self.resolvers.remove(i);
+            self.out.traffic.push(format!("call-resolve:{}", v));
+            let g = api::create_guard(&h.interp);
+            if let Err(e) = api::call_function(&mut h.interp, &g, &f, None, &[JsValue::Number(v)]) {
+                let (k, m) = err_kind_msg(&e);
+                self.out.traffic.push(format!("call-resolve-err:{}:{}", k, m));
+            }
+            self.idle_in_row = 0;
             return;
         }
         if self.unanswered.is_empty() && self.deferred.is_empty() {
